@@ -546,14 +546,20 @@ def find_unwinders(c):
             dec = False
             close = False
             pop = False
-            for b in body:
-                for i in f.blocks[b].instrs:
-                    if i.op == 'store' and i.ops[1].kind == 'global' and i.ops[1].name == '@cfg_include_stack_ptr':
-                        dec = True
-                    if i.op == 'call' and i.callee_name() == 'fclose':
-                        close = True
-                    if i.op == 'call' and i.callee_name() in ('cfg_scan_fp_end', 'cfg_yypop_buffer_state'):
-                        pop = True
+            instrs = [i for b in body for i in f.blocks[b].instrs]
+            # ... and what a helper called from the loop body does (the pop sequence shared with the end-of-file action)
+            for i in list(instrs):
+                n_ = i.callee_name() if i.op == 'call' else None
+                h_ = c.func(n_) if n_ and n_ in c.unknown_funcs else None
+                if h_ is not None:
+                    instrs.extend(x for g_ in c.deep_funcs(h_) for x in g_.instrs())
+            for i in instrs:
+                if i.op == 'store' and i.ops[1].kind == 'global' and i.ops[1].name == '@cfg_include_stack_ptr':
+                    dec = True
+                if i.op == 'call' and i.callee_name() == 'fclose':
+                    close = True
+                if i.op == 'call' and i.callee_name() in ('cfg_scan_fp_end', 'cfg_yypop_buffer_state'):
+                    pop = True
             if dec and close and pop:
                 out.add(f.name)
     # wrappers
